@@ -139,3 +139,12 @@ M("c11-no-clip-lastcol", "C11", ("samplers.py", "        lon = lon % TWOPI  # en
 M("c11-galactic-latlon-swapped", "C11", ("samplers.py", "        lon, lat = gal.l.rad, gal.b.rad\n", "        lon, lat = gal.l.rad, lat\n"))
 M("c11-sky-wrap", "C11", ("samplers.py", "    lon0 = np.pi - 0.5 / dx  # longitudes of the centers of the pixels with ix = 0\n    lat0 = HALFPI - 0.5 / dy  # latitudes of the centers of the pixels with iy = 0\n\n    def vec2pix(lon, lat):\n        lon = (lon + np.pi) % TWOPI - np.pi  # ensure in range [-pi, pi]", "    lon0 = np.pi - 0.5 / dx  # longitudes of the centers of the pixels with ix = 0\n    lat0 = HALFPI - 0.5 / dy  # latitudes of the centers of the pixels with iy = 0\n\n    def vec2pix(lon, lat):\n        lon = np.where(lon > np.pi, lon - TWOPI, lon)  # ensure in range [-pi, pi]"))
 M("c11-ecliptic-row", "C11", ("samplers.py", "        lon, lat = ecl.lon.rad, ecl.lat.rad\n", "        lon, lat = ecl.lon.rad, -ecl.lat.rad\n"))
+
+# ---- C02
+M("c02-swap-quadrants", "C02", ("merge.py", "SLICES_MATCHING_PARITY = [\n    (slice(None, 256), slice(None, 256)),\n    (slice(None, 256), slice(256, None)),\n    (slice(256, None), slice(None, 256)),", "SLICES_MATCHING_PARITY = [\n    (slice(None, 256), slice(None, 256)),\n    (slice(256, None), slice(None, 256)),\n    (slice(None, 256), slice(256, None)),"))
+M("c02-fits-matching-parity", "C02", ("merge.py", "        if pio.get_default_vertical_parity_sign() == 1:\n            self._slices = SLICES_OPPOSITE_PARITY", "        if pio.get_default_vertical_parity_sign() == 2:\n            self._slices = SLICES_OPPOSITE_PARITY"))
+M("c02-no-buffer-clear", "C02", ("merge.py", "        if self._buf is not None:\n            self._buf.clear()\n", ""))
+M("c02-mean-for-nanmean", "C02", ("merge.py", "return np.nanmean(data.reshape(s), axis=(1, 3)).astype(data.dtype)", "return np.mean(data.reshape(s), axis=(1, 3)).astype(data.dtype)"))
+M("c02-stale-parent-kept", "C02", ("merge.py", "            try:\n                os.unlink(self._pio.tile_path(pos, makedirs=False))\n            except OSError:\n                pass\n            return", "            return"))
+M("c02-opposite-slices-swapped", "C02", ("merge.py", "SLICES_OPPOSITE_PARITY = [\n    (slice(256, None), slice(None, 256)),\n    (slice(256, None), slice(256, None)),", "SLICES_OPPOSITE_PARITY = [\n    (slice(256, None), slice(256, None)),\n    (slice(256, None), slice(None, 256)),"))
+M("c02-parent-written-masked", "C02", ("pyramid.py", "        if image.is_completely_masked():\n", "        if image.is_completely_masked() and pos.n > 0:\n"))
